@@ -106,6 +106,7 @@ def run(ctx):
         for ot in ("n", "v"):
             case = f"otype='{ot}', noise {noise}"
             it = Interp(pkg, param_classes={"input": "electrical_signal"}, assumptions={"input.noise": noise, "fs": None, "otype": ot}, no_inline=("shortest_int",))
+            it.keep_astype = True      # a cast between rounding and clamping matters (wrap-around of out-of-range codes)
             outs = it.run(fi)
             rets = [o for o in outs if o.kind == "return"]
             if len(rets) != 1 or not isinstance(rets[0].value, ObjV):
@@ -154,6 +155,15 @@ def run(ctx):
                 ok = isinstance(lo, Form) and lo == Form.num(0) and isinstance(hi, Form) and hi == top
                 ctx.check("C18.1", ok, fi, rets[0].node, f"ADC [{case}]: codes clamped to [{lo!r}, {hi!r}]", "[0, 2**n-1]: out-of-range samples saturate at the end codes",
                           f"clamp bounds [{lo!r}, {hi!r}] are not [0, 2**n-1]")
+            # a cast applied to the rounded code BEFORE the clamp must keep every out-of-range code (a wide signed integer or float);
+            # an unsigned / minimal-width type wraps negative or too-large codes into the valid range instead of saturating
+            ra = raw.single_atom() if isinstance(raw, Form) else None
+            if ra and ra[0] == "fn" and ra[1] == "astype" and len(ra[2]) == 2:
+                tname = repr(ra[2][1])
+                wide = any(k in tname for k in ("class int", "int64", "int32", "class float", "float64", "longlong", "intp"))
+                ctx.check("C18.1", wide, fi, rets[0].node, f"ADC [{case}]: rounded code cast to {tname} before the clamp", "a wide signed type: out-of-range codes survive until they are clamped",
+                          f"the rounded code is cast to {tname} before clip(0, 2**n-1): codes below 0 (and, for an 8-bit type, above 255) wrap around instead of saturating at the end codes")
+                raw = ra[2][0]
             ctx.check("C18.2", isinstance(raw, Form) and raw == code_want, fi, rets[0].node, f"ADC [{case}]: code = {raw!r}"[:300], "round((x-V_min)/(V_max-V_min)*(2**n-1))",
                       f"quantiser map differs from {code_want!r}")
     it = Interp(pkg, param_classes={"input": "electrical_signal"}, assumptions={"input.noise": "none", "fs": None, "otype": "volts"}, no_inline=("shortest_int",))
